@@ -12,6 +12,8 @@ import JsonbModel.Driver.TextOps
 import JsonbModel.Driver.PathOps
 import JsonbModel.Driver.JsonOps
 import JsonbModel.Driver.SelectOps
+import JsonbModel.Driver.SerdeOps
+import JsonbModel.Driver.TextFnOps
 
 namespace Jsonb.Driver
 open Jsonb.Wire
@@ -71,6 +73,12 @@ def step (line : String) : String :=
                 | none =>
                   match selectStep req with
                   | some r => r
-                  | none => badReq
+                  | none =>
+                    match serdeStep req with
+                    | some r => r
+                    | none =>
+                      match textFnStep req with
+                      | some r => r
+                      | none => badReq
 
 end Jsonb.Driver
